@@ -261,6 +261,7 @@ type frame struct {
 	sites   map[string][]token.Pos // per site kind: positions in source order
 	defCtx map[ssa.Value][]*loopInfo
 	loopLets map[string]map[string]Value
+	loopVariants map[string][]*Term // values of the decreases expressions at the (arbitrary) iteration head
 	loopHeads map[string]*State
 	closable  bool
 }
@@ -604,6 +605,7 @@ func (f *frame) runNode(n *node) {
 	case "backinv":
 		f.checkInvariants(n.Loop, st, "inv-preserve", n)
 		f.loopFrameCheck(n.Loop, st, n)
+		f.checkVariants(n.Loop, st, n)
 		return
 	}
 	if n.InvHead {
@@ -611,6 +613,7 @@ func (f *frame) runNode(n *node) {
 		f.checkInvariants(n.Loop, st, "inv-entry", n)
 		f.havocLoop(n.Loop, st, n)
 		f.assumeInvariants(n.Loop, st, n)
+		f.bindVariants(n.Loop, st, n)
 	}
 	n.outs = make([]*State, len(n.B.Succs))
 	for _, in := range n.B.Instrs {
